@@ -573,31 +573,71 @@ func runC05Proc(c *fw.Case) {
 	c.Outcome("ok")
 }
 
-// startServer runs `desync <args> -l 127.0.0.1:<port>` and waits until the port accepts connections.
+// startServer runs `desync <args> -l 127.0.0.1:<port>` and waits until that very process listens on the port. The
+// port is picked by binding and releasing it, so another process on the machine (another worker's server) can take it
+// in between; a connection that succeeds proves nothing. The socket table decides: the child must own the listening
+// socket. A child that lost the port exits and another port is tried.
 func startServer(args ...string) (stop func(), addr string, err error) {
-	ln, err := net.Listen("tcp", "127.0.0.1:0")
-	if err != nil {
-		return nil, "", err
-	}
-	addr = ln.Addr().String()
-	ln.Close()
-	cmd := exec.Command(desyncBin(), append(args, "-l", addr)...)
-	var out bytes.Buffer
-	cmd.Stdout, cmd.Stderr = &out, &out
-	cmd.Env = append(os.Environ(), "HOME=/nonexistent-verif-home")
-	if err := cmd.Start(); err != nil {
-		return nil, "", err
-	}
-	stop = func() { cmd.Process.Kill(); cmd.Wait() }
-	for i := 0; i < 600; i++ {
-		if conn, err := net.Dial("tcp", addr); err == nil {
-			conn.Close()
-			return stop, addr, nil
+	var last string
+	for try := 0; try < 5; try++ {
+		ln, err := net.Listen("tcp", "127.0.0.1:0")
+		if err != nil {
+			return nil, "", err
 		}
-		time.Sleep(10 * time.Millisecond)
+		addr = ln.Addr().String()
+		port := ln.Addr().(*net.TCPAddr).Port
+		ln.Close()
+		cmd := exec.Command(desyncBin(), append(args, "-l", addr)...)
+		var out bytes.Buffer
+		cmd.Stdout, cmd.Stderr = &out, &out
+		cmd.Env = append(os.Environ(), "HOME=/nonexistent-verif-home")
+		if err := cmd.Start(); err != nil {
+			return nil, "", err
+		}
+		exited := make(chan struct{})
+		go func() { cmd.Wait(); close(exited) }()
+		stop = func() { cmd.Process.Kill(); <-exited }
+		for i := 0; i < 1500; i++ {
+			if pidListensOn(cmd.Process.Pid, port) {
+				return stop, addr, nil
+			}
+			select {
+			case <-exited:
+				i = 1 << 30
+			default:
+				time.Sleep(4 * time.Millisecond)
+			}
+		}
+		stop()
+		last = out.String()
 	}
-	stop()
-	return nil, "", fmt.Errorf("%w: server did not start listening: %s", errProcTimeout, out.String())
+	return nil, "", fmt.Errorf("%w: server did not start listening: %s", errProcTimeout, last)
+}
+
+// pidListensOn reports whether process pid owns a socket listening on 127.0.0.1:port (from /proc).
+func pidListensOn(pid, port int) bool {
+	b, err := os.ReadFile("/proc/net/tcp")
+	if err != nil {
+		return false
+	}
+	want := fmt.Sprintf("0100007F:%04X", port)
+	inodes := map[string]bool{}
+	for _, line := range strings.Split(string(b), "\n") {
+		f := strings.Fields(line)
+		if len(f) > 9 && f[1] == want && f[3] == "0A" {
+			inodes["socket:["+f[9]+"]"] = true
+		}
+	}
+	if len(inodes) == 0 {
+		return false
+	}
+	fds, _ := os.ReadDir(fmt.Sprintf("/proc/%d/fd", pid))
+	for _, fd := range fds {
+		if l, err := os.Readlink(fmt.Sprintf("/proc/%d/fd/%s", pid, fd.Name())); err == nil && inodes[l] {
+			return true
+		}
+	}
+	return false
 }
 
 // C14: the real chunk-server / index-server commands, talked to by the real HTTP client over loopback.
